@@ -91,6 +91,102 @@ func c12Block(list []ast.Stmt) []string {
 	return res
 }
 
+// c12ShapeExpr is c05Expr plus slice expressions
+func c12ShapeExpr(e ast.Expr) string {
+	if v, ok := e.(*ast.SliceExpr); ok {
+		part := func(x ast.Expr) string {
+			if x == nil {
+				return ""
+			}
+			return c05Expr(x)
+		}
+		return c05Expr(v.X) + "[" + part(v.Low) + ":" + part(v.High) + "]"
+	}
+	return c05Expr(e)
+}
+
+// c12Shape renders EVERY statement of a block, nested blocks included (if / else / for with their bodies): a
+// statement added anywhere - a memo, an early return - changes the string.  A returned call is named by its
+// function only (the message text is free).
+func c12Shape(list []ast.Stmt) []string {
+	var res []string
+	for _, st := range list {
+		res = append(res, c12ShapeStmt(st))
+	}
+	return res
+}
+
+func c12ShapeStmt(st ast.Stmt) string {
+	simple := func(s ast.Stmt) string {
+		switch v := s.(type) {
+		case *ast.AssignStmt:
+			l := make([]string, len(v.Lhs))
+			for i, x := range v.Lhs {
+				l[i] = c12ShapeExpr(x)
+			}
+			r := make([]string, len(v.Rhs))
+			for i, x := range v.Rhs {
+				r[i] = c12ShapeExpr(x)
+			}
+			return strings.Join(l, ",") + v.Tok.String() + strings.Join(r, ",")
+		case *ast.ExprStmt:
+			return c12ShapeExpr(v.X)
+		}
+		return "?"
+	}
+	switch v := st.(type) {
+	case *ast.AssignStmt:
+		return "assign:" + simple(v)
+	case *ast.ExprStmt:
+		return "call:" + simple(v)
+	case *ast.ReturnStmt:
+		parts := make([]string, len(v.Results))
+		for i, r := range v.Results {
+			if c, ok := r.(*ast.CallExpr); ok {
+				parts[i] = c05Expr(c.Fun)
+			} else {
+				parts[i] = c12ShapeExpr(r)
+			}
+		}
+		return "return:" + strings.Join(parts, ",")
+	case *ast.IfStmt:
+		s := "if:"
+		if a, ok := v.Init.(*ast.AssignStmt); ok {
+			r := make([]string, len(a.Rhs))
+			for i, x := range a.Rhs {
+				r[i] = c12ShapeExpr(x)
+			}
+			s = "if-init:" + strings.Join(r, ",") + ";"
+		} else if v.Init != nil {
+			s = "if-init:?;"
+		}
+		s += c12ShapeExpr(v.Cond) + "{" + strings.Join(c12Shape(v.Body.List), ";") + "}"
+		switch e := v.Else.(type) {
+		case *ast.BlockStmt:
+			s += "else{" + strings.Join(c12Shape(e.List), ";") + "}"
+		case *ast.IfStmt:
+			s += "else{" + c12ShapeStmt(e) + "}"
+		}
+		return s
+	case *ast.ForStmt:
+		c := ""
+		if v.Cond != nil {
+			c = c12ShapeExpr(v.Cond)
+		}
+		if v.Init != nil || v.Post != nil {
+			c = "?;" + c + ";?"
+		}
+		return "for:" + c + "{" + strings.Join(c12Shape(v.Body.List), ";") + "}"
+	case *ast.RangeStmt:
+		return "range:" + c12ShapeExpr(v.X) + "{" + strings.Join(c12Shape(v.Body.List), ";") + "}"
+	case *ast.BlockStmt:
+		return "{" + strings.Join(c12Shape(v.List), ";") + "}"
+	case *ast.DeferStmt:
+		return "defer:" + c05Expr(v.Call.Fun)
+	}
+	return "other"
+}
+
 func factsC12() {
 	inst := "pkg/haproxy/instance.go"
 	// writeConfig: modsec, one errorfile per HAProxy based response, responses.lua, haproxy.cfg, the shard files;
@@ -156,6 +252,10 @@ func factsC12() {
 		}
 	}
 	addStrList("c12WriteToDiskOS", osc, "template.writeToDisk: os.* calls in source order")
+	// the whole statement shape: the rotation block (rename -> return, removal loop -> return), then os.WriteFile of
+	// the rendered buffer; nothing is remembered and nothing returns early before the write is known to be done
+	addStrList("c12WriteToDiskShape", c12Shape(methodDecl("pkg/haproxy/template/template.go", "template", "writeToDisk").Body.List),
+		"template.writeToDisk: every statement, nested blocks included")
 	var wo []string
 	for _, c := range methodCalls("pkg/haproxy/template/template.go", "Config", "WriteOutput") {
 		if c == "t.tmpl.Execute" || c == "t.writeToDisk" {
